@@ -195,6 +195,18 @@ def _do(w, ev, cfg):
             hk = HDKey(key=other.secret.to_bytes(32, 'big'), chain=other.chain, depth=1, child_index=7,
                        parent_fingerprint=other.parent_fp, network=cfg['network'], witness_type=cfg['wt'])
             w.import_key(hk)
+        elif kind == 'new_account_otherwt':
+            # an account of ANOTHER witness type: numbered within that type's own tree (m/44', m/49', m/84' ...)
+            owt = _other_wt(cfg['wt'])
+            purpose = PURPOSE[owt]
+            have = sorted(int(k.path.split('/')[3].rstrip("'")) for k in w.keys(depth=3)
+                          if k.path.split('/')[1] == "%d'" % purpose)
+            acc = w.new_account(witness_type=owt)
+            got = acc.path.split('/')
+            want = (max(have) + 1) if have else 0
+            if got[1] != "%d'" % purpose or int(got[3].rstrip("'")) != want:
+                raise _WrongAccount('new_account(witness_type=%s) created %s, the next free account of that type is %d'
+                                    % (owt, acc.path, want))
         elif kind == 'new_account':
             w.new_account()
         elif kind == 'new_key_acc1':
@@ -391,7 +403,7 @@ SUBS = {'hist': sub_hist}
 
 EV_FULL = [['new_key'], ['new_key_change'], ['get_key'], ['get_key_change'], ['get_keys2'], ['new_keys3'],
            ['path_gap', 0, 7], ['path_gap', 0, 3], ['path_gap', 1, 2], ['new_account'], ['new_key_acc1'], ['new_key_otherwt'],
-           ['get_keys_otherwt'], ['path_bulk', 1, 0, 3], ['import_foreign'],
+           ['get_keys_otherwt'], ['path_bulk', 1, 0, 3], ['import_foreign'], ['new_account_otherwt'],
            ['mark_used'], ['public_master'], ['reopen']]
 EV_SMALL = [['new_key'], ['new_key_change'], ['get_key'], ['get_keys2'], ['path_gap', 0, 5], ['path_gap', 0, 2],
             ['path_bulk', 1, 0, 3], ['import_foreign'],
